@@ -4,3 +4,8 @@ claim("C01", "model_checking",
       "numpy linear algebra; palettes stand for continuous values; sizes beyond the levels listed in the evidence are not examined",
       "bounded-exhaustive input-space enumeration on the implementation (stateless explicit exploration) with exact rational domain decision",
       "DESIGN.md section 4 C01")
+claim("C06", "model_checking",
+      "Every network up to the listed levels over {Z,Y,V,I,LV,LI,open} in every orientation, with every reference node, is queried at every ordered node pair and every element; port impedance is compared with an exact rational reference (sources deactivated, unit current injected), symmetry, zero cases, element impedance, Thevenin loading with four loads (library's own Voc/Zth/Isc, load attached and re-solved by the library), Isc=Voc/Zth and the equivalent-source objects are judged on every one; RLC ladders are swept through the frequency wrappers. Complete enumeration inside the bounds.",
+      "numpy linear algebra; palettes; multi-node floating islands are in the domain only as far as they hang on open branches",
+      "bounded-exhaustive input-space enumeration on the implementation with an exact rational reference model",
+      "DESIGN.md section 4 C06")
